@@ -318,12 +318,16 @@ func checkC05History(c *Case, s *Stats) error {
 		snap []byte // a private copy taken at that moment
 	}
 	var kept []keptOut
+	var shared []byte // one buffer re-used for every load when c.Scrib&2 != 0
+	if c.Scrib&2 == 2 {
+		s.class("hist_loads_through_one_reused_buffer")
+	}
 	inst := emptyTrie(c)
 	if c.Scrib&1 == 1 && !isLegacyLoad(c.Pool[0]) {
 		// the instance starts its life as a BUILT trie (not a loaded one)
 		err := guard("NewSlimTrie", func() error {
 			var e error
-			inst, e = c.Pool[0].build()
+			inst, e = c.Pool[0].buildEnc(c.Pool[0].encoder())
 			if e != nil {
 				return viol("build", "NewSlimTrie rejected valid input: %v", e)
 			}
@@ -348,7 +352,16 @@ func checkC05History(c *Case, s *Stats) error {
 		err := guard(what, func() error {
 			switch op.Op {
 			case "unmarshal":
-				opErr = inst.Unmarshal(append([]byte{}, b...))
+				if c.Scrib&2 == 2 {
+					// the caller reads every stream into the same buffer
+					if cap(shared) < len(b) {
+						shared = make([]byte, 0, 2*len(b)+64)
+					}
+					shared = append(shared[:0], b...)
+					opErr = inst.Unmarshal(shared)
+				} else {
+					opErr = inst.Unmarshal(append([]byte{}, b...))
+				}
 			case "proto":
 				opErr = proto.Unmarshal(append([]byte{}, b...), inst)
 			case "reset":
